@@ -174,9 +174,12 @@ def run(ctx):
         if list(mv.values()) != vals or tuple(mv.keys()) != keys:
             ctx.violation('operand-modified', {'keys': list(keys)}, str(vals), str(list(mv.values())), key='mutation')
             break
+    # generated functions read their argument lists and allocate fresh outputs: static check of the emitted source
+    ast_pass(ctx)
     # injected faults while code is generated: the wrapper raises on chosen applications
     fault_pass(ctx)
     thread_pass(ctx)
+    pressure_pass(ctx)
     out = ctx.drive(lines)
     if out is not None:
         nb = 0
@@ -191,6 +194,50 @@ def run(ctx):
             collision_search(ctx)
     ctx.assumptions = ['single dict operations are atomic under the GIL; functools.cached_property races are not modelled',
                        'the thread run supports, but does not replace, the interleaving theorem']
+
+
+def ast_pass(ctx):
+    """every generated function (all operators, a spread of key patterns, with and without cse) only binds fresh local names:
+    no subscript / attribute stores, no augmented assignment, no `global`/`nonlocal`, no `del` of arguments' items"""
+    import ast, inspect
+    rng = ctx.rng
+    for sig, opts in (([1, 1, 1], {}), ([0, 1, 1], {'cse': False}), ([1, -1], {})):
+        alg = make_algebra(sig, **opts)
+        regs = make_regs(alg)
+        for call in gen_history(rng, len(sig), 30, 0 in sig):
+            do_call(alg, regs, call)
+        n = 0
+        for opname, odict in alg.registry.items():
+            if not hasattr(odict, 'operator_dict'):
+                continue
+            for keys_in, (keys_out, func) in list(odict.operator_dict.items()):
+                try:
+                    src = inspect.getsource(func)
+                except Exception:
+                    ctx.count('ast:no-source')
+                    continue
+                tree = ast.parse(src)
+                fn = tree.body[0]
+                argnames = {a.arg for a in fn.args.args}
+                bad = None
+                for node in ast.walk(fn):
+                    if isinstance(node, (ast.AugAssign, ast.Global, ast.Nonlocal, ast.Delete)):
+                        bad = type(node).__name__
+                    elif isinstance(node, (ast.Subscript, ast.Attribute)) and isinstance(getattr(node, 'ctx', None), ast.Store):
+                        bad = 'store into ' + type(node).__name__
+                    elif isinstance(node, ast.Name) and isinstance(node.ctx, ast.Store) and node.id in argnames:
+                        bad = f'rebinding of argument {node.id}'
+                    elif isinstance(node, ast.Call):
+                        f = node.func
+                        nm = f.id if isinstance(f, ast.Name) else (f.attr if isinstance(f, ast.Attribute) else None)
+                        if nm is not None and nm in ('append', 'extend', 'insert', 'pop', 'remove', 'clear', 'sort', 'reverse', 'setattr', '__setitem__', 'update'):
+                            bad = f'call of mutating method {nm}'
+                n += 1
+                ctx.case(('ast', tuple(sig), opname, keys_in), tag='ast-purity', sample=False)
+                if bad:
+                    ctx.violation('generated-function-mutates', {'sig': sig, 'op': opname, 'keys': [list(k) if isinstance(k, tuple) else k for k in keys_in],
+                                                                 'source': src[:400]}, 'a function that only binds fresh local names', bad, key='mutation:generated-source')
+        ctx.count('ast-functions', n)
 
 
 def fault_pass(ctx):
@@ -248,6 +295,45 @@ def thread_pass(ctx):
             if g != e:
                 ctx.violation('thread-result', {'sig': sig, 'wrapper': bool(wrapper), 'call': jsonable(hist[i])}, str(e), str(g), key='history:threads')
                 break
+
+
+def pressure_pass(ctx):
+    """long histories: a registered function and a few direct calls, then well over a thousand other key patterns of the
+    same operators on the same algebra, then the first calls again (results must not depend on what was generated since)"""
+    import itertools
+    rng = ctx.rng
+    n = 1300 if ctx.quick else 5000
+    for wrapper in (None, ident):
+        alg = make_algebra([1, 1, 1, 1], **({'wrapper': wrapper} if wrapper else {}))
+        regs = make_regs(alg)
+        probes = []
+        for f in (0, 1, 3):
+            kx, ky = [1, 2, 4], [3, 5]
+            probes.append({'kind': 'reg', 'f': f, 'kx': kx, 'ky': ky, 'vx': [Fraction(2), Fraction(3), Fraction(5)], 'vy': [Fraction(7), Fraction(11)]})
+        for op in ('sub', 'gp', 'add', 'op'):
+            probes.append({'kind': 'bin', 'op': op, 'kx': [1, 6, 8], 'ky': [2, 9], 'vx': [Fraction(1), Fraction(2), Fraction(3)], 'vy': [Fraction(4), Fraction(5)]})
+        first = [do_call(alg, regs, c) for c in probes]
+        pats = []
+        for r in (1, 2, 3):
+            pats += [list(c) for c in itertools.combinations(range(16), r)]
+        rng.shuffle(pats)
+        count = 0
+        for kx in pats:
+            for ky in ([0], [15], [3, 12]):
+                for op in ('sub', 'gp', 'add', 'op'):
+                    do_call(alg, regs, {'kind': 'bin', 'op': op, 'kx': kx, 'ky': ky, 'vx': [Fraction(1)] * len(kx), 'vy': [Fraction(1)] * len(ky)})
+                count += 1
+                if count >= n:
+                    break
+            if count >= n:
+                break
+        again = [do_call(alg, regs, c) for c in probes]
+        for c, a, b in zip(probes, first, again):
+            ctx.case(('pressure', bool(wrapper), jsonable(c)), tag='cache-pressure')
+            if a != b:
+                ctx.violation('history-dependent', {'wrapper': bool(wrapper), 'call': jsonable(c), 'distinct_patterns_in_between': count},
+                              str(a), str(b), key=f'history:pressure:{c["kind"]}')
+        ctx.count('pressure-patterns', count)
 
 
 def collision_search(ctx):
